@@ -71,3 +71,22 @@ def abuse_vlq_helpers(mido, values=()):
                 mido.UnknownMetaMessage(0x0a, [n % 128] * n).bytes()
         except Exception:      # noqa: BLE001 - only the later behaviour is judged
             pass
+
+
+def abuse_merge_results(mido):
+    """What merge_tracks() / MidiFile.merged_track hand out belongs to the caller: padding the final end_of_track, shifting
+    events, must not show in any file saved or merged later."""
+    try:
+        mt = mido.merge_tracks([mido.MidiTrack([mido.Message('note_on', note=1, time=3)]), mido.MidiTrack()])
+        mt[-1].time = 960
+        mt2 = mido.merge_tracks([mido.MidiTrack([mido.Message('note_on', note=1, time=0)])])
+        mt2[-1].time = 555
+        mf = mido.MidiFile(tracks=[mido.MidiTrack([mido.Message('note_on', note=2, time=0)])])
+        mm = mf.merged_track
+        mm[-1].time = 777
+        for x in mm:
+            x.time = 5
+        for m in mf:
+            m.time = 9
+    except Exception:      # noqa: BLE001 - only the later behaviour is judged
+        pass
